@@ -1,7 +1,11 @@
 import MidnightZK.Model.Common
 import MidnightZK.Model.C19.Parse
 import MidnightZK.Model.C19.Circuit
+import MidnightZK.Model.C19.Coll
 import MidnightZK.Model.C19.Base64
+import MidnightZK.Model.C19.B64Circuit
+import MidnightZK.Model.C19.DataTypes
+import MidnightZK.Gen.C19Base64
 /-! Line-protocol handler of property C19. -/
 namespace MidnightZK.C19.Driver
 open MidnightZK MidnightZK.C19
@@ -81,6 +85,36 @@ def answer (line : String) : String :=
         | none => "stuck"
       | none => "bad-op"
     | _ => "bad-op"
+  | "pctable" :: n :: ts =>
+    match n.toNat?.bind (fun n => parseMany parseDfa n ts) with
+    | some (As, []) =>
+      if !As.all Dfa.closedB then "not-closed" else
+      let C := collOf As
+      let rows := collTableRows C
+      s!"offs {fmtNatList (C.map (·.2))} | {rows.length} rows {" ".intercalate (rows.map rowText)} pad 0.0.0.0"
+    | _ => "bad-op"
+  | "pctrace" :: n :: ts =>
+    match n.toNat?.bind (fun n => parseMany parseDfa n ts) with
+    | some (As, ["|", i, "|", h]) =>
+      match i.toNat?.bind (collMember As), parseHexBytes h with
+      | some (A, off), some bytes =>
+        if !As.all Dfa.closedB then "not-closed" else
+        match parseRows A off bytes with
+        | some rows => " ".intercalate (rows.map PRow.text)
+        | none => "stuck"
+      | _, _ => "bad-op"
+    | _ => "bad-op"
+  | "pcparse" :: n :: ts =>
+    match n.toNat?.bind (fun n => parseMany parseDfa n ts) with
+    | some (As, ["|", i, "|", h]) =>
+      match i.toNat?.bind (collMember As), parseHexBytes h with
+      | some (A, _), some bytes =>
+        if !As.all Dfa.closedB then "not-closed" else
+        match parseModel A bytes with
+        | some ms => s!"ok {fmtNatList ms}"
+        | none => "reject"
+      | _, _ => "bad-op"
+    | _ => "bad-op"
   | "parsewith" :: ts =>
     match parseDfa ts with
     | some (A, ["|", w]) =>
@@ -88,6 +122,54 @@ def answer (line : String) : String :=
       | some w => fmtBool (A.accepts (w.map (·.1)) (w.map (·.2)))
       | none => "bad-op"
     | _ => "bad-op"
+  | ["atoi", h] =>
+    match parseHexBytes h with
+    | some input =>
+      if input.length ≥ PG.digitCapacity then "panic" else
+      match PG.asciiToInt input with
+      | some v => s!"ok {v}"
+      | none => "unsat"
+    | none => "bad-op"
+  | ["date", fmt, sep, h] =>
+    match parseHexBytes h, (if sep == "-" then some none else sep.toNat?.map some) with
+    | some input, some sep =>
+      if fmt != "ymd" && fmt != "dmy" then "bad-op" else
+      if input.length != PG.dateLen sep then "panic" else
+      match PG.dateToInt (if fmt == "ymd" then .yyyymmdd else .ddmmyyyy) sep input with
+      | some v => s!"ok {v}"
+      | none => "unsat"
+    | _, _ => "bad-op"
+  | ["fetch", idx, len, h] =>
+    match parseHexBytes h, idx.toNat?, len.toNat? with
+    | some seq, some idx, some len =>
+      if len > seq.length then "panic" else
+      match PG.fetchBytes seq idx len with
+      | some out => s!"ok {hexOfBytes out}"
+      | none => "unsat"
+    | _, _, _ => "bad-op"
+  | ["b64lookup", _] => B64.lookupText Gen.twoEntryCharShift Gen.twoEntryDefault
+  | ["b64table", _] =>
+    let rows := B64.twoEntryTable Gen.base64Table
+    let txt := rows.map fun r => s!"{r.1}.{r.2}"
+    s!"{rows.length} rows {" ".intercalate txt} pad {txt.headD "-"}"
+  | ["b64rows", alph, mode, h] =>
+    match parseHexBytes h with
+    | some input =>
+      let url := alph == "url"
+      if alph != "url" && alph != "std" then "bad-op" else
+      let input' := if url then input.map B64.urlToStd else input
+      let fmt (r : Option (List String)) : String :=
+        match r with
+        | some rows => if rows.isEmpty then "-" else " ".intercalate rows
+        | none => "undecodable"
+      if mode == "pad" then
+        if !B64.lengthOk true input then "panic" else fmt (B64.chunkRows true input')
+      else if mode == "nopad" then fmt (B64.chunkRows false input')
+      else if mode == "var" then
+        if input.length % 4 != 0 || input.length > 64 then "panic"
+        else fmt (B64.chunkRows true (List.replicate (64 - input.length) B64.altPad ++ input'))
+      else "bad-op"
+    | none => "bad-op"
   | ["b64", alph, mode, h] =>
     match parseHexBytes h with
     | some input =>
